@@ -969,6 +969,20 @@ class Gen:
         q.projs = [(agg, None)]
         q.out = [("_", INT, self.prov(ic, [src]))]
         self.tags.add("sub:scalar-proj")
+        if self.f.get("scalar_setop") and self.chance(0.35):
+            # body is a set operation (text-level checks only: it may yield more than one row at run time)
+            t2 = self._subq_table()
+            src2 = self.base_source(t2)
+            src2.force_qualify = True
+            ic2 = self.colref([src2], INT)
+            if ic2 is not None:
+                b = Query()
+                b.from_ = src2
+                b.projs = [(("agg", self.pick(["MAX", "MIN"]), ic2, False), None)]
+                b.out = [("_", INT, self.prov(ic2, [src2]))]
+                q.setops.append((self.pick(["UNION", "UNION ALL", "INTERSECT", "EXCEPT"]), b))
+                q.out = [("_", INT, q.out[0][2] | b.out[0][2])]
+                self.tags.add("sub:scalar-setop")
         return ("scalar", q)
 
     def add_order(self, q, scope, top, as_source):
